@@ -593,6 +593,8 @@ def known_match(case: dict, detail: Any) -> Optional[str]:
     items = L.xsd_collapse(text).split(' ') if _contains_list(d) else [L.xsd_collapse(text)]
     names0 = _all_builtin_names(d)
     if kind == 'roundtrip':
+        # a value that was decoded at all: items as the implementation saw them (C02-F4 may have applied)
+        items = ''.join(' ' if c in L.PY_ONLY_WS + L.XML_WS else c for c in text).split()
         # C02-F8: xs:dateTimeStamp decodes to DateTime, which its own encoder refuses
         if 'dateTimeStamp' in names0 and 'DateTimeStamp' in str(detail.get('error', '')):
             return 'C02-F8'
